@@ -36,7 +36,7 @@ func Parse(filename string, data []byte) (*File, error) {
 	}
 	np := round(len(hdrPrefix), 4)
 	hdrLen := *(*uint32)(unsafe.Pointer(&data[np]))
-	if hdrLen > pageSize {
+	if hdrLen > pageSize || hdrLen < uint32(np+4) {
 		return corrupt()
 	}
 	meta := data[np+4 : hdrLen]
@@ -70,10 +70,12 @@ func Parse(filename string, data []byte) (*File, error) {
 			if !ok {
 				return corrupt()
 			}
-			if _, ok := f.Count[string(ename)]; ok {
+			// Look up the name under which the value is stored, so that a
+			// cyclic chain is detected for stack counter names too.
+			ctrName := DecodeStack(string(ename))
+			if _, ok := f.Count[ctrName]; ok {
 				return corrupt()
 			}
-			ctrName := DecodeStack(string(ename))
 			f.Count[ctrName] = v.Load()
 			off = next
 		}
